@@ -70,8 +70,8 @@ partial def orderSensitive : Body → Bool
       | _ => false
 
 def classOf (body : Body) : String :=
-  if body.any (anyScalS keywordPrefix) then ":keyword-prefix"
-  else if hasChainedDef false body && orderSensitive body then ":chained-order"
+  if hasChainedDef false body && orderSensitive body then ":chained-order"
+  else if body.any (anyScalS keywordPrefix) then ":keyword-prefix"
   else ""
 
 def xform (j : Json) : Except String Json := do
